@@ -158,6 +158,8 @@ pub struct Out {
     pub running_calls: u64,
     pub clock_calls: u64,
     pub clock_fired: bool,
+    /// the search did not end on its own within the wall-clock allowance and was stopped
+    pub overran: bool,
 }
 
 static LAST_PANIC: Mutex<String> = Mutex::new(String::new());
@@ -191,7 +193,47 @@ pub struct Opts {
     pub neutral: bool,
 }
 
+// ---- watchdog: a search that does not end on its own is stopped through the engine's own
+// ---- running flag after a generous wall-clock allowance and reported as overrun; if even
+// ---- that does not end it, the worker process exits (machinery error in the parent)
+struct Watch {
+    flag: Option<std::sync::Arc<std::sync::atomic::AtomicBool>>,
+    deadline: Option<std::time::Instant>,
+    overran: bool,
+}
+static WATCH: Mutex<Watch> = Mutex::new(Watch { flag: None, deadline: None, overran: false });
+static WATCH_STARTED: std::sync::Once = std::sync::Once::new();
+
+fn watchdog_start() {
+    WATCH_STARTED.call_once(|| {
+        std::thread::spawn(|| loop {
+            std::thread::sleep(std::time::Duration::from_millis(50));
+            let mut w = WATCH.lock().unwrap_or_else(|e| e.into_inner());
+            if let (Some(flag), Some(dl)) = (w.flag.clone(), w.deadline) {
+                let now = std::time::Instant::now();
+                if now > dl + std::time::Duration::from_secs(20) {
+                    eprintln!("watchdog: a search ignored the stop flag for 20 s; giving up on this worker");
+                    std::process::exit(3);
+                }
+                if now > dl {
+                    w.overran = true;
+                    flag.store(false, std::sync::atomic::Ordering::Relaxed);
+                }
+            }
+        });
+    });
+}
+
+pub fn overrun_allowance() -> std::time::Duration {
+    std::time::Duration::from_secs(std::env::var("VERIF_SEARCH_ALLOWANCE_S").ok().and_then(|x| x.parse().ok()).unwrap_or(120))
+}
+
 pub fn run(board: &Board, case: &Case, o: &Opts) -> Out {
+    run_within(board, case, o, overrun_allowance())
+}
+
+pub fn run_within(board: &Board, case: &Case, o: &Opts, allowance: std::time::Duration) -> Out {
+    watchdog_start();
     if o.clear_cache {
         hooks::tt_clear();
     }
@@ -222,13 +264,26 @@ pub fn run(board: &Board, case: &Case, o: &Opts) -> Out {
     let max_depth = case.max_depth;
     let result = std::panic::catch_unwind(std::panic::AssertUnwindSafe(|| {
         let mut search = Search::new(board, Some(limits));
+        {
+            let mut w = WATCH.lock().unwrap_or_else(|e| e.into_inner());
+            w.flag = Some(search.running.clone());
+            w.deadline = Some(std::time::Instant::now() + allowance);
+            w.overran = false;
+        }
         search.search(&SimpleEvaluator, max_depth);
         search.rce_verif_result()
     }));
+    let overran = {
+        let mut w = WATCH.lock().unwrap_or_else(|e| e.into_inner());
+        w.flag = None;
+        w.deadline = None;
+        w.overran
+    };
     let mut out = Out {
         running_calls: hooks::running_calls(),
         clock_calls: hooks::clock_calls(),
         clock_fired: hooks::clock_fired(),
+        overran,
         ..Default::default()
     };
     hooks::log_arm(false);
